@@ -3,6 +3,6 @@
 cd /verif
 : > selfmut/results.txt
 while read c p; do
-  out=$(./try_mutant.sh selfmut/revert-$c.diff $p quick 2>&1 | grep -E "^(VIOLATION|OK|INCONCLUSIVE|KNOWN|mutant rc|patch does not|mutant does not)" | tr '\n' ' ')
+  out=$(VERIF_SKIP_PRE=1 ./try_mutant.sh selfmut/revert-$c.diff $p quick 2>&1 | grep -E "^(VIOLATION|OK|INCONCLUSIVE|KNOWN|mutant rc|patch does not|mutant does not)" | tr '\n' ' ')
   echo "$c $p :: $out" >> selfmut/results.txt
 done < selfmut/list.txt
